@@ -46,7 +46,8 @@ CONSTANTS
     MAXSAVES,       \* snap: snapshots saved per behaviour
     REKEEP,         \* rot: whether the retention value may change between operations
     ImportCleans,   \* as coded: TRUE  (ImportState calls Clean first)
-    UnmarshalMode,  \* as coded: "merge" (dsstate.Unmarshal does not empty the store)
+    UnmarshalMode,  \* as coded: "replace" (dsstate.Unmarshal removes every existing entry first, since
+                    \* commit 2eb6568); "merge" = the former behaviour, kept only as a refutation witness
     LoadSkipsBad    \* as coded after the fix: TRUE (unparsable line skipped)
 
 Range(s) == {s[i] : i \in DOMAIN s}
@@ -74,7 +75,8 @@ ExportConforms(ps, s) == Len(s) = Cardinality(ps) /\ Range(s) = ps
 \* ImportState as coded, both state managers: Clean(); offline state; Add every decoded pin;
 \* raft: SnapshotSave of that state, crdt: Commit of the batch.
 ImportResult(s, target) == AddAll(IF ImportCleans THEN {} ELSE target, s)
-\* dsstate.Unmarshal as coded: Put every decoded entry (no clearing)
+\* dsstate.Unmarshal as coded: delete every existing key of the namespace, then Put every decoded entry
+\* ("merge": the former code, no clearing)
 UnmarshalResult(s, target) == AddAll(IF UnmarshalMode = "replace" THEN {} ELSE target, s)
 
 \* property: exporting ps and importing the stream anywhere yields ps
@@ -282,7 +284,7 @@ XNext == Export \/ Import \/ Marshal \/ Unmarshal
 ExportLaw       == xst = "exported" => ExportGood(src, stream)
 ImportLaw       == xst = "imported" => ImportGood(src, tgt)
 SerialLawFresh  == (xst = "unmarshalled" /\ tgt0 = {}) => ImportGood(src, tgt)
-SerialLawAny    == xst = "unmarshalled" => ImportGood(src, tgt)       \* does not hold as coded ("merge")
+SerialLawAny    == xst = "unmarshalled" => ImportGood(src, tgt)       \* required; refuted by TLC for "merge"
 
 ---------------------------------------------------------------------------
 \* (b)
